@@ -67,6 +67,25 @@ def solve_rep(rep):
     out["inputs_restored"] = bool(all(np.array_equal(a, b, equal_nan=True) or np.allclose(a, b, rtol=1e-15, atol=0) for a, b in zip(
         s["inputs_after"], (p.radius, p.density, p.gravity, p.bulk, p.shear))))
     out["g_surf"], out["R"], out["rho_bulk"] = p.g_surf, p.R, p.bulk_density
+    # second call in the same process with the SAME array objects (what an evolution loop does): bit-identical results, and the arrays
+    # still hold the caller's values afterwards
+    if rep.get("repeat", True):
+        try:
+            from TidalPy.RadialSolver import radial_solver
+            arrs = [p.radius.copy(), p.density.copy(), p.gravity.copy(), p.bulk.copy(), p.shear.copy()]
+            outs_rep = []
+            for _ in range(2):
+                sol = radial_solver(arrs[0], arrs[1], arrs[2], arrs[3], arrs[4], float(rep.get("freq", 1.0e-5)), float(p.bulk_density), p.layer_types, p.is_static,
+                                    p.is_incompressible, p.upper_radius, degree_l=rep.get("l", 2), solve_for=tuple(rep["solveFor"]), use_kamata=(rep["family"] == "kamata"),
+                                    integration_method=rep["integ"], integration_rtol=rtol, integration_atol=atol, nondimensionalize=rep["nondim"], warnings=False)
+                outs_rep.append((bool(sol.success), np.array(sol.result, copy=True) if sol.success else None))
+                del sol
+            same = outs_rep[0][0] == outs_rep[1][0] and (outs_rep[0][1] is None or np.array_equal(outs_rep[0][1], outs_rep[1][1], equal_nan=True))
+            first_same = outs_rep[0][1] is not None and np.array_equal(outs_rep[0][1], res, equal_nan=True)
+            drift = max(float(np.max(np.abs(a - b) / np.maximum(np.abs(b), 1e-300))) for a, b in zip(arrs, (p.radius, p.density, p.gravity, p.bulk, p.shear)))
+            out["repeat"] = {"second_equals_first": bool(same), "equals_fresh_arrays": bool(first_same), "input_drift": drift}
+        except Exception as ex:
+            out["repeat"] = {"raised": type(ex).__name__}
     # convergence filter of the properties' quantifier: the same call with a 100x tighter tolerance
     try:
         s2 = solve(p, rep.get("freq", 1.0e-5), degree_l=rep.get("l", 2), solve_for=tuple(rep["solveFor"]), use_kamata=(rep["family"] == "kamata"),
